@@ -13,6 +13,17 @@ TYPES = {'Pid': 'erltf::types::ExternalPid', 'Port': 'erltf::types::ExternalPort
 RAW = 'local_ext_bytes'
 
 
+def _raw_option(B, pl):
+    """the place is an Option derived from the raw-bytes field through as_ref / as_deref / copies (`x.local_ext_bytes.as_deref()`)"""
+    from ..families import operand_chain
+    from ..core import root_fields
+    op = {'k': 'cp', 'pl': {'l': pl['l'], 'p': None}}
+    try:
+        return RAW in root_fields(B, op)
+    except Exception:
+        return False
+
+
 ID_TAGS_ALL = {88, 103, 89, 102, 120, 90, 114, 101}
 
 
@@ -121,7 +132,7 @@ def run(ctx):
             if sd:
                 pl = sd[0]
                 base_, projs_ = unwrap(EB.origin_place(pl))
-                if any(isinstance(e, dict) and e.get('n') == RAW for e in (pl.get('p') or [])) or RAW in projs_:
+                if any(isinstance(e, dict) and e.get('n') == RAW for e in (pl.get('p') or [])) or RAW in projs_ or _raw_option(EB, pl):
                     guarded = True
         # ... and only then: every write of the plain form lies behind the None edge of that very test.  A second condition on the
         # Some side (a freshness heuristic, a length test) sends identifiers that do carry raw bytes down the plain path, hash lost.
@@ -134,7 +145,7 @@ def run(ctx):
                     continue
                 pl = sd[0]
                 base_, projs_ = unwrap(EB.origin_place(pl))
-                if not (any(isinstance(e, dict) and e.get('n') == RAW for e in (pl.get('p') or [])) or RAW in projs_):
+                if not (any(isinstance(e, dict) and e.get('n') == RAW for e in (pl.get('p') or [])) or RAW in projs_ or _raw_option(EB, pl)):
                     continue
                 none_t = [b_ for v_, b_ in sd[2] if v_ == 0]
                 some_t = [b_ for v_, b_ in sd[2] if v_ == 1]
